@@ -69,3 +69,15 @@ func VerifConnInfo(obj interface{}) (net, transport gopacket.Flow, s Stream, clo
 	c := obj.(*connection)
 	return c.key[0], c.key[1], c.c2s.stream, c.c2s.closed && c.s2c.closed
 }
+
+// VerifConnLocked reports whether the connection's mutex is held right now
+// (by anyone).  Used by the harness to check that a stream callback really
+// runs under the connection lock and not only between the yield points.
+func VerifConnLocked(obj interface{}) bool {
+	c := obj.(*connection)
+	if c.mu.TryLock() {
+		c.mu.Unlock()
+		return false
+	}
+	return true
+}
